@@ -1057,6 +1057,14 @@ func (e *Env) call(n *ast.CallExpr) Value {
 			ts = append(ts, t)
 		}
 		return Eq(App("g_Verify_r0", SInt, ts...), IntC(0))
+	case "errIs":
+		// errIs(err, Sentinel): errors.Is over the error's known structure (joins, wraps)
+		a, ok1 := e.eval(n.Args[0]).(*IfaceV)
+		b, ok2 := e.eval(n.Args[1]).(*IfaceV)
+		if !ok1 || !ok2 {
+			return e.fail("errIs needs two error values")
+		}
+		return e.ex.errIs(a, b, 0)
 	case "isfunc":
 		// isfunc(f, "suffix"): the function value f is (a closure of) the function whose name ends in suffix
 		fv, ok := e.eval(n.Args[0]).(*FuncV)
